@@ -573,6 +573,68 @@ class ExcelInPython:
             pass
         return when_error() if callable(when_error) else when_error
     
+    def _wildcard_regexp(self, text: str) -> str:
+        # ? - any character, * - any run of characters, ~ before ? * ~ cancels their special meaning;
+        # every other character stands for itself
+        pattern, index = '', 0
+        while index < len(text):
+            symbol = text[index]
+            if symbol == '~' and text[index + 1:index + 2] in ('?', '*', '~'):
+                pattern += re.escape(text[index + 1])
+                index += 2
+                continue
+            pattern += '.' if symbol == '?' else '.*' if symbol == '*' else re.escape(symbol)
+            index += 1
+        return pattern
+
+    def _criterion(self, criterion) -> Callable:
+        """
+        The predicate of an Excel criterion: a plain value means equality (texts without regard to case, ? * ~ are
+        wildcards and the pattern has to match the whole cell); a text starting with = <> > >= < <= compares with
+        the value that follows (">5", "<>x", "=3", also when assembled with & from a cell).
+        A number is compared with numeric cells only, a date with dates, a text with text cells.
+        """
+        operator, value = '==', criterion
+        if isinstance(value, self.EmptyCell):
+            value = 0
+        if isinstance(value, str):
+            prefix = re.match(r'(>=|<=|<>|>|<|=)(.*)', value, flags=re.DOTALL)
+            if prefix:
+                operator = {{'=': '==', '<>': '!='}}.get(prefix.group(1), prefix.group(1))
+                value = prefix.group(2)
+
+        number, date = None, None
+        if type(value) in (int, float):
+            number = value
+        elif isinstance(value, str) and re.fullmatch(r'[+-]?(\\d+\\.?\\d*|\\.\\d+)([eE][+-]?\\d+)?', value):
+            number = float(value)
+        elif isinstance(value, datetime.datetime):
+            date = value
+        elif isinstance(value, str) and any(symbol.isdigit() for symbol in value):
+            date = self._parse_date_obj(value)
+
+        def accepts(cell) -> bool:
+            if number is not None:
+                if type(cell) not in (int, float):
+                    return operator == '!='
+                return self._by_operator(operator, cell, number)
+            if date is not None:
+                cell_date = cell if isinstance(cell, datetime.datetime) else self._parse_date_obj(cell) \\
+                    if isinstance(cell, str) and any(symbol.isdigit() for symbol in cell) else None
+                if cell_date is None:
+                    return operator == '!='
+                return self._by_operator(operator, cell_date, date)
+            if isinstance(value, bool):
+                return (isinstance(cell, bool) and cell == value) == (operator != '!=') if operator in ('==', '!=') else False
+            text = '' if cell is None or isinstance(cell, self.EmptyCell) else cell if isinstance(cell, str) else None
+            if operator in ('==', '!='):
+                matched = text is not None and re.fullmatch(
+                    self._wildcard_regexp(str(value)), text, flags=re.IGNORECASE | re.DOTALL) is not None
+                return matched == (operator == '==')
+            return text is not None and self._by_operator(operator, text.lower(), str(value).lower())
+
+        return accepts
+
     def _when_cell_is_empty_cast_to_zero(self, iterable: List):
         return [0 if isinstance(i, self.EmptyCell) else i for i in iterable]
         
@@ -775,17 +837,7 @@ class ExcelInPython:
 
         # ? - любой символ, * - любая последовательность символов, ~ перед ?, * или ~ отменяет их особое значение;
         # остальные символы ищутся как есть (не как regex), без учета регистра
-        pattern, index = '', 0
-        while index < len(find_text):
-            symbol = find_text[index]
-            if symbol == '~' and find_text[index + 1:index + 2] in ('?', '*', '~'):
-                pattern += re.escape(find_text[index + 1])
-                index += 2
-                continue
-            pattern += '.' if symbol == '?' else '.*' if symbol == '*' else re.escape(symbol)
-            index += 1
-
-        found = re.compile(pattern, re.I | re.S).search(within_text, start_num - 1)
+        found = re.compile(self._wildcard_regexp(find_text), re.I | re.S).search(within_text, start_num - 1)
         return found.start() + 1 if found else '#VALUE!'
 
     def _excel_value_to_string(self, value: Any):
